@@ -12,7 +12,6 @@ is identified by the *parameter of the callee it reaches* (names from the callee
   fmax, R_bend   of makeImpedance (both calls must agree)
   t_sync, f_rev  of HDF5File;  time  = second argument of HDF5File::append(ps, t, at) inside/after the loop
   sinusoidal RF: revolutionpart, V_RF, f_RF, V0 of the sinusoidal constructors
-and two are read off structurally:  steps = denominator of angle (= two_pi/steps),  fs = denominator of t_sync (= 1/fs).
 Everything is inlined down to the leaves: options (O_<getter>), physical constants (C_<name>), program state
 (S_<local>); conditions become the abstract predicates of Model/ScalingOps.v (o_lt, o_is0 ...), sqrt/sign/ceil the
 abstract functions o_sqrt ...; pow with a small literal exponent is a product.  Conversions between arithmetic types are
@@ -22,17 +21,6 @@ import sys, os, json
 sys.path.insert(0, os.path.dirname(os.path.abspath(__file__)))
 from cxx_ast import *
 import scaling_lib as sl
-
-
-def denominator_of(e, what, numer_ok):
-    e = sl.nocast(e)
-    if e[0] == "bin" and e[1] == "/" and numer_ok(e[3]):
-        return e[4]
-    if e[0] == "bin" and e[1] == "*":
-        for a, b in ((e[3], e[4]), (e[4], e[3])):
-            if numer_ok(a) and b[0] == "bin" and b[1] == "/" and b[3][0] == "lit" and b[3][1] == 1:
-                return b[4]
-    raise TranslateError("%s no longer has the shape numerator/denominator this translator reads" % what)
 
 
 def translate():
@@ -45,7 +33,6 @@ def translate():
         pass
     Q = {}
     Q["angle"] = R["angle"]
-    Q["steps"] = denominator_of(R["angle"], "angle", lambda n: n == ("leaf", "C_two_pi", "f64"))
     Q["slip"] = R["slip"]
     Q["e1"] = R["e1"]
     Q["dt"] = R["wake_dt"]
@@ -59,7 +46,6 @@ def translate():
     if "h5_t_sync" not in R or "h5_time" not in R:
         raise TranslateError("construction of the results file (t_sync) or its append(ps, t, at) calls not found in main()")
     Q["t_sync"] = R["h5_t_sync"]
-    Q["fs"] = denominator_of(R["h5_t_sync"], "t_sync", lambda n: n[0] == "lit" and n[1] == 1)
     Q["h5_f_rev"] = R["h5_f_rev"]
     Q["h5_time"] = R["h5_time"]
     Q["linrf_f_RF"] = R["linrf_f_RF"]
